@@ -1,0 +1,12 @@
+//go:build verif
+
+package trie
+
+// Read-only wrappers around unexported identifiers, used only by the verification harness
+// (/verif/harness/cmd/c01). They add no behaviour.
+
+// VerifPath is trie.go's path(key, parentKey).
+func VerifPath(key, parentKey *BitArray) BitArray { return path(key, parentKey) }
+
+// VerifFindFirstSetBit is bitarray.go's findFirstSetBit.
+func VerifFindFirstSetBit(b *BitArray) uint8 { return findFirstSetBit(b) }
